@@ -12,6 +12,11 @@
 From SV Require Import Base Json MD5 Canon FS Proc Crash WsNames CorrC11.
 Import ListNotations.
 
+(* an elementary document operation as the actor logged it: assignment doc[d_key] = d_val, or a read that
+   returned d_val; d_start / d_end = number of the actor's own scheduled calls completed when the operation
+   began / returned *)
+Record docop := { d_set : bool; d_file : path; d_key : str; d_val : json; d_start : nat; d_end : nat }.
+
 Record case_C12 := {
   q_atomic : bool;
   q_ftab : list (fl * str);
@@ -21,7 +26,8 @@ Record case_C12 := {
   q_tags : list str;                          (* temp-file tag of each actor                      *)
   q_sched : list (nat * csig);
   q_results : list (list aobs + exn);
-  q_final : fobs
+  q_final : fobs;
+  q_docops : list (list docop)                (* per actor; [] for an actor that failed *)
 }.
 
 Definition frepr12 (c : case_C12) : fl -> str := ftab_lookup (q_ftab c).
@@ -55,6 +61,7 @@ Definition aobs_eqb (a b : aobs) : bool :=
   | OUnit, OUnit => true
   | ODoc x, ODoc y => json_same x y
   | ONum x, ONum y => Nat.eqb x y
+  | ODocs x, ODocs y => all2 json_same x y
   | _, _ => false
   end.
 
@@ -76,6 +83,11 @@ Definition mismatch_C12 (c : case_C12) : bool :=
 (* ------------------------------------------------------------------ the oracle *)
 Definition sp_of_act (a : act) : option json :=
   match a with AInit sp | ADocSet sp _ _ | ADocRead sp => Some sp | _ => None end.
+Definition sps_of_act (a : act) : list json :=
+  match a with
+  | AWithInit o i => [o; i]
+  | _ => match sp_of_act a with Some sp => [sp] | None => [] end
+  end.
 
 (* the document file an action works on: a job document or the project document (next to the workspace) *)
 Definition pdoc_of (c : case_C12) : path := parent (q_ws c) ++ [PDOCF].
@@ -108,8 +120,7 @@ Definition doc_files (c : case_C12) : list path :=
 
 (* every id some actor names *)
 Definition requested (c : case_C12) : list str :=
-  flat_map (fun acts => flat_map (fun a => match sp_of_act a with Some sp => [calc_id (frepr12 c) sp] | None => [] end) acts)
-           (q_actors c).
+  flat_map (fun acts => flat_map (fun a => map (calc_id (frepr12 c)) (sps_of_act a)) acts) (q_actors c).
 
 (* the document in a tree ({} when there is no file) *)
 Definition doc_at (f : fs) (file : path) : option json :=
@@ -119,15 +130,19 @@ Definition doc_at (f : fs) (file : path) : option json :=
   | Some Dir => None
   end.
 
-(* the complete versions of a document: the initial one and the one after each assignment, in the
-   program order of the (single) writing actor *)
-Definition doc_versions (c : case_C12) (file : path) : list json :=
+(* the assignments to [file], in actor order then program order (one writing actor per document) *)
+Definition sets_on (c : case_C12) (file : path) : list docop :=
+  flat_map (fun ops => filter (fun o => d_set o && path_eqb (d_file o) file) ops) (q_docops c).
+
+Definition versions_ops (c : case_C12) (file : path) : list json :=
   let d0 := match doc_at (q_pre c) file with Some d => d | None => JNull end in
-  let sets := flat_map (fun acts => flat_map (fun a =>
-                if on_file c file a then match set_of_act a with Some kv => [kv] | None => [] end else []) acts)
-                (q_actors c) in
-  (fix go (d : json) (l : list (str * json)) : list json :=
-     match l with [] => [d] | (k, v) :: l' => d :: go (doc_set d k v) l' end) d0 sets.
+  (fix go (d : json) (l : list docop) : list json :=
+     match l with [] => [d] | o :: l' => d :: go (doc_set d (d_key o) (d_val o)) l' end) d0 (sets_on c file).
+
+(* the complete versions of a document: the initial one and the one after each assignment, in the program
+   order of the (single) writing actor — taken from the actors' operation logs, so that assignments made in the
+   body of an iteration construct count too *)
+Definition doc_versions (c : case_C12) (file : path) : list json := versions_ops c file.
 
 (* positions (in the schedule) of actor a's opens-for-read of a document file, in order *)
 Fixpoint read_positions (a : nat) (file : path) (sched : list (nat * csig)) (pos : nat) : list nat :=
@@ -190,6 +205,52 @@ Fixpoint reads_ok (c : case_C12) (a : nat) (actors : list (list act)) (rs : list
   | _, _ => true
   end.
 
+(* ------------------------------------------------------------------ a write that RETURNED is visible *)
+(* position in the schedule of actor a's n-th call (n >= 1) *)
+Fixpoint pos_of (a n : nat) (sched : list (nat * csig)) (pos : nat) : option nat :=
+  match sched with
+  | [] => None
+  | (b, _) :: rest =>
+      if Nat.eqb a b then
+        match n with
+        | O => None
+        | S O => Some pos
+        | S n' => pos_of a n' rest (S pos)
+        end
+      else pos_of a n rest (S pos)
+  end.
+
+Fixpoint count_ops (b : nat) (file : path) (p0 : nat) (sched : list (nat * csig)) (a : nat) (opss : list (list docop)) : nat :=
+  match opss with
+  | [] => O
+  | ops :: rest =>
+      (if Nat.eqb a b then O
+       else length (filter (fun o => d_set o && path_eqb (d_file o) file
+                                     && match pos_of a (d_end o) sched 0 with Some q => Nat.ltb q p0 | None => false end) ops))
+      + count_ops b file p0 sched (S a) rest
+  end.
+
+(* Happens-before in the lock-step run: the scheduler grants a call only after every other actor has run up
+   to its next call (or its end).  So an assignment of actor a whose last call sits at a position before the
+   call that precedes actor b's read HAD RETURNED when that read began: the read must return a version at least
+   as new.  (One writer per document: the completed assignments are a prefix of the version list.) *)
+Definition read_visible (c : case_C12) (b : nat) (r : docop) : bool :=
+  d_set r ||
+  let vs := versions_ops c (d_file r) in
+  let cnt := match pos_of b (d_start r) (q_sched c) 0 with
+             | Some p0 => count_ops b (d_file r) p0 (q_sched c) 0 (q_docops c)
+             | None => O
+             end in
+  existsb (fun m => Nat.leb cnt m && match nth_error vs m with Some v => json_same v (d_val r) | None => false end)
+          (seq 0 (length vs)).
+
+Fixpoint returned_visible_from (c : case_C12) (b : nat) (opss : list (list docop)) : bool :=
+  match opss with
+  | [] => true
+  | ops :: rest => forallb (read_visible c b) ops && returned_visible_from c (S b) rest
+  end.
+Definition returned_visible (c : case_C12) : bool := returned_visible_from c 0 (q_docops c).
+
 Definition no_failure (c : case_C12) : bool :=
   forallb (fun r => match r with inl _ => true | inr _ => false end) (q_results c).
 
@@ -231,7 +292,7 @@ Definition final_ok (c : case_C12) : bool :=
   end.
 
 Definition holds_C12 (c : case_C12) : bool :=
-  no_failure c && reads_ok c 0 (q_actors c) (q_results c) && lens_ok c && final_ok c && sequential_ok c.
+  no_failure c && reads_ok c 0 (q_actors c) (q_results c) && returned_visible c && lens_ok c && final_ok c && sequential_ok c.
 
 Definition violation_C12 (c : case_C12) : bool := negb (holds_C12 c).
 
